@@ -62,17 +62,19 @@ Record KInv (s : st) (pend : option nat) : Prop := mkK {
   K6 : forall h, h < s_nexth B s -> Some h <> pend ->
        (exists r, r < len s /\ owner (gref s r) /\ fr_file (gref s r) = h) \/ closed s h;
   K7 : forall r, r < len s -> owner (gref s r) -> live (gref s r) = false -> closed s (fr_file (gref s r));
-  Kp : forall h, pend = Some h -> h < s_nexth B s }.
+  Kp : forall h, pend = Some h -> h < s_nexth B s;
+  K8 : forall r p, r < len s -> fr_parent (gref s r) = Some p -> p < len s }.
 
 (** states that agree on what [KInv] reads *)
 Lemma K_ext s s' pend :
   KInv s pend ->
   s_nexth B s' = s_nexth B s -> closes (s_log B s') = closes (s_log B s) -> len s' = len s ->
   (forall q, q < len s -> fr_file (gref s' q) = fr_file (gref s q) /\ fr_xattrOf (gref s' q) = fr_xattrOf (gref s q) /\
-                          (owner (gref s q) -> live (gref s' q) = live (gref s q))) ->
+                          (owner (gref s q) -> live (gref s' q) = live (gref s q)) /\
+                          (forall p, fr_parent (gref s' q) = Some p -> p < len s)) ->
   KInv s' pend.
 Proof.
-  intros K EN EC EL EQ. destruct K as [k1 k2 kx k3 k4 k5 k6 k7 kp].
+  intros K EN EC EL EQ. destruct K as [k1 k2 kx k3 k4 k5 k6 k7 kp k8].
   assert (F : forall q, q < len s -> fr_file (gref s' q) = fr_file (gref s q)) by (intros q Hq; apply EQ; auto).
   assert (X : forall q, q < len s -> fr_xattrOf (gref s' q) = fr_xattrOf (gref s q)) by (intros q Hq; apply EQ; auto).
   assert (L : forall q, q < len s -> owner (gref s q) -> live (gref s' q) = live (gref s q)) by (intros q Hq; apply EQ; auto).
@@ -88,6 +90,7 @@ Proof.
     exists r. split; auto. split; [rewrite X by auto; auto | rewrite F by auto; auto].
   - intros r Hr O Lv. rewrite X in O by auto. rewrite L in Lv by auto. rewrite F by auto. apply k7; auto.
   - exact kp.
+  - intros r p Hr Hp. apply (EQ r Hr). exact Hp.
 Qed.
 
 (** same fid table / holders / fidRefs, same next handle, same Close calls *)
@@ -103,25 +106,35 @@ Lemma K_same_life s s' pend : same_life s s' -> KInv s pend -> KInv s' pend.
 Proof.
   intros ((F & H & R & P) & N & Cl) K. apply (K_ext s s' pend K N Cl).
   - unfold len. rewrite R. reflexivity.
-  - intros q Hq. unfold get_ref. rewrite R. repeat split; auto.
+  - intros q Hq. unfold get_ref. rewrite R. repeat split; auto. intros p Hp. apply (K8 s pend K q p Hq). exact Hp.
 Qed.
 
 (** overwriting one fidRef *)
 Lemma K_set_ref s pend r x' :
   KInv s pend -> fr_file x' = fr_file (gref s r) -> fr_xattrOf x' = fr_xattrOf (gref s r) ->
   (owner (gref s r) -> live x' = live (gref s r)) ->
+  (forall p, fr_parent x' = Some p -> p < len s) ->
   KInv (set_ref B r x' s) pend.
 Proof.
-  intros K EF EX EL. apply (K_ext s _ pend K); try reflexivity.
+  intros K EF EX EL EP. apply (K_ext s _ pend K); try reflexivity.
   - unfold len. apply len_set_ref.
   - intros q Hq. destruct (Nat.eq_dec r q) as [<-|N].
     + rewrite gref_set_same by exact Hq. auto.
-    + rewrite gref_set_other by auto. auto.
+    + rewrite gref_set_other by auto. repeat split; auto. intros p Hp. apply (K8 s pend K q p Hq Hp).
+Qed.
+
+Lemma K_set_refs s pend r z :
+  KInv s pend -> (owner (gref s r) -> live (fr_with_refs (gref s r) z) = live (gref s r)) ->
+  KInv (set_ref B r (fr_with_refs (gref s r) z) s) pend.
+Proof.
+  intros K EL. destruct (Nat.lt_ge_cases r (len s)) as [Hr|Hr].
+  - apply K_set_ref; auto. intros p Hp. apply (K8 s pend K r p Hr Hp).
+  - unfold set_ref. rewrite upd_oob by exact Hr. destruct s; exact K.
 Qed.
 
 Lemma K_incref s pend r : KInv s pend -> live (gref s r) = true -> KInv (incref B r s) pend.
 Proof.
-  intros K L. unfold incref. apply K_set_ref; auto. intros _. rewrite live_refs, L.
+  intros K L. unfold incref. apply K_set_refs; auto. intros _. rewrite live_refs, L.
   unfold live in L. apply Z.ltb_lt in L. apply Z.ltb_lt. lia.
 Qed.
 
@@ -130,7 +143,7 @@ Lemma K_death_close s pend r :
   KInv s pend -> r < len s -> owner (gref s r) -> live (gref s r) = true ->
   KInv (snd (bcall_ B bstep (BClose (fr_file (gref s r))) (set_ref B r (fr_with_refs (gref s r) 0) s))) pend.
 Proof.
-  intros K Hr O L. destruct K as [k1 k2 kx k3 k4 k5 k6 k7 kp].
+  intros K Hr O L. destruct K as [k1 k2 kx k3 k4 k5 k6 k7 kp k8].
   set (x := gref s r) in *. set (s1 := set_ref B r (fr_with_refs x 0) s).
   assert (G1 : gref s1 r = fr_with_refs x 0) by (apply gref_set_same; exact Hr).
   assert (G2 : forall q, r <> q -> gref s1 q = gref s q) by (intros; apply gref_set_other; auto).
@@ -161,21 +174,24 @@ Proof.
   - intros q Hq Oq Lq. destruct (FX q) as (Ef & Xq). rewrite Ef. rewrite Xq in Oq. apply Cl.
     destruct (Nat.eq_dec r q) as [<-|N]; [left; reflexivity|]. right. rewrite Gs, G2 in Lq by auto. apply k7; auto.
   - exact kp.
+  - intros q p Hq Hp. rewrite Gs in Hp. destruct (Nat.eq_dec r q) as [<-|N].
+    + rewrite G1 in Hp. cbn in Hp. apply (k8 r p Hr Hp).
+    + rewrite G2 in Hp by auto. apply (k8 q p Hq Hp).
 Qed.
 
 (** the last reference of an xattr fidRef goes away (it owns nothing) *)
 Lemma K_death_borrow s pend r o :
   KInv s pend -> fr_xattrOf (gref s r) = Some o -> KInv (set_ref B r (fr_with_refs (gref s r) 0) s) pend.
 Proof.
-  intros K X. apply K_set_ref; auto. unfold owner. rewrite X. discriminate.
+  intros K X. apply K_set_refs; auto. unfold owner. rewrite X. discriminate.
 Qed.
 
 (** a new fidRef takes the pending handle *)
 Lemma K_new_owner s h x :
-  KInv s (Some h) -> fr_file x = h -> fr_xattrOf x = None ->
+  KInv s (Some h) -> fr_file x = h -> fr_xattrOf x = None -> (forall p, fr_parent x = Some p -> p < len s) ->
   KInv (snd (new_ref B x s)) None.
 Proof.
-  intros K EF EX. destruct K as [k1 k2 kx k3 k4 k5 k6 k7 kp].
+  intros K EF EX EP. destruct K as [k1 k2 kx k3 k4 k5 k6 k7 kp k8].
   destruct (new_ref_facts B x s) as (_ & L1 & Gn & Go & _).
   set (s1 := snd (new_ref B x s)) in *. set (n := len s). fold (len s) in L1, Gn, Go. fold n in L1, Gn, Go.
   assert (EL : len s1 = S n) by exact L1.
@@ -207,14 +223,17 @@ Proof.
     + rewrite Go in * by auto. apply k7; auto.
     + rewrite Gn in Lq. cbn in Lq. discriminate.
   - discriminate.
+  - intros q p Hq Hp. destruct (Cases q Hq) as [Lt| ->].
+    + rewrite Go in Hp by auto. pose proof (k8 q p Lt Hp). lia.
+    + rewrite Gn in Hp. cbn in Hp. pose proof (EP p Hp). lia.
 Qed.
 
 (** a new xattr fidRef borrows the File of [o] *)
 Lemma K_new_borrower s pend x o :
-  KInv s pend -> fr_xattrOf x = Some o -> o < len s -> fr_file x = fr_file (gref s o) ->
+  KInv s pend -> fr_xattrOf x = Some o -> o < len s -> fr_file x = fr_file (gref s o) -> fr_parent x = None ->
   KInv (snd (new_ref B x s)) pend.
 Proof.
-  intros K EX Lo EF. destruct K as [k1 k2 kx k3 k4 k5 k6 k7 kp].
+  intros K EX Lo EF EP. destruct K as [k1 k2 kx k3 k4 k5 k6 k7 kp k8].
   destruct (new_ref_facts B x s) as (_ & L1 & Gn & Go & _).
   set (s1 := snd (new_ref B x s)) in *. set (n := len s). fold (len s) in L1, Gn, Go. fold n in L1, Gn, Go, Lo.
   assert (EL : len s1 = S n) by exact L1.
@@ -241,12 +260,15 @@ Proof.
   - intros q Hq Oq Lq. rewrite Cl. destruct (Cases q Hq) as [Lt| ->]; [|tauto].
     rewrite Go in * by auto. apply k7; auto.
   - exact kp.
+  - intros q p Hq Hp. destruct (Cases q Hq) as [Lt| ->].
+    + rewrite Go in Hp by auto. pose proof (k8 q p Lt Hp). lia.
+    + rewrite Gn in Hp. cbn in Hp. congruence.
 Qed.
 
 (** the backend returned a File: the next handle number is taken *)
 Lemma K_take_handle s : KInv s None -> KInv (take_handle B s) (Some (s_nexth B s)).
 Proof.
-  intros [k1 k2 kx k3 k4 k5 k6 k7 kp].
+  intros [k1 k2 kx k3 k4 k5 k6 k7 kp k8].
   constructor; change (len (take_handle B s)) with (len s); cbn [take_handle with_nexth s_nexth];
     try assumption.
   - intros r Hr. change (gref (take_handle B s) r) with (gref s r). destruct (k1 r Hr) as (Lt & _). split; [lia|].
@@ -261,7 +283,7 @@ Qed.
 Lemma K_close_pending s h :
   KInv s (Some h) -> KInv (snd (bcall_ B bstep (BClose h) s)) None.
 Proof.
-  intros [k1 k2 kx k3 k4 k5 k6 k7 kp]. unfold bcall_. destruct (bstep (s_be B s) (BClose h)) as [b' a]. cbn [snd].
+  intros [k1 k2 kx k3 k4 k5 k6 k7 kp k8]. unfold bcall_. destruct (bstep (s_be B s) (BClose h)) as [b' a]. cbn [snd].
   set (s2 := mkst B _ _ _ _ _ _ _ _ _).
   assert (Cl : forall z, closed s2 z <-> z = h \/ closed s z).
   { intros z. unfold closed, s2; cbn. split; intros [H|H]; auto. }
@@ -279,6 +301,7 @@ Proof.
     destruct (k6 z Hz ltac:(congruence)) as [H|H]; [left; exact H | right; apply Cl; auto].
   - intros r Hr O L. change (gref s2 r) with (gref s r) in *. apply Cl. right. apply k7; auto.
   - discriminate.
+  - exact k8.
 Qed.
 
 (** ---- the DecRef cascade ---- *)
@@ -328,7 +351,7 @@ Proof.
     { destruct SL as ((_ & _ & R & _) & _). unfold live_count. rewrite R. reflexivity. }
     pose proof (IH p s3 d pend D4 (K_same_life _ _ _ SL K3) ltac:(lia)) as K5.
     destruct (decref B bstep f p s3) as [e2 s4]. exact K5.
-  - cbn [snd]. apply K_set_ref; auto. intros _. rewrite live_refs. fold x. rewrite Lx. apply Z.ltb_lt. lia.
+  - cbn [snd]. apply K_set_refs; auto. intros _. rewrite live_refs. fold x. rewrite Lx. apply Z.ltb_lt. lia.
 Qed.
 
 Lemma decref_K_ r s d pend : RefInvD B s (r :: d) -> KInv s pend -> KInv (snd (decref_ B bstep r s)) pend.
